@@ -176,7 +176,6 @@ fn main() -> anyhow::Result<()> {
         let mut hotset: Vec<u64> = Vec::new();
         let mut written_at: HashMap<u64, usize> = HashMap::new();
         let mut computed_at: HashMap<(u64, i64), usize> = HashMap::new();
-        let mut recent: Vec<i64> = Vec::new(); // queries searched earlier in this behaviour (candidates for multi-query batches)
         let meta = |i: u64| -> Meta {
             let mut m = Meta::new();
             m.insert("k1".into(), format!("val{}", 1 + i % 2));
@@ -229,21 +228,23 @@ fn main() -> anyhow::Result<()> {
                     }
                     outw.emit(&json!({"ev": "op", "t": "flush", "id": 0, "x": 0, "ok": r.is_ok()}));
                 }
-                "search" => {
+                "search" | "bsearch" => {
                     let q = st["q"].as_i64().unwrap_or(0);
                     let k = st["k"].as_u64().unwrap_or(1) as usize;
                     let scope = st["s"].as_u64().unwrap_or(1);
-                    let flavour = rng.gen_range(0..10);
+                    // the flavour comes from the model (step field "fl"); behaviours written by hand carry none: plain.
+                    // 0 = ef override (no cache), 1 = batch, 2 = timed, other = plain
+                    let flavour = match st["fl"].as_str().unwrap_or("plain") {
+                        "ef" => 0,
+                        "batch" => 1,
+                        "timed" => 2,
+                        _ => 9,
+                    };
                     let before = eng.stats();
-                    // the queries evaluated by this step: the step's own query, and for the batch flavour up to three more
-                    // (earlier queries of this behaviour - likely cached - in seeded order), all judged position by position
                     let mut qs: Vec<i64> = vec![q];
-                    if flavour == 1 && !recent.is_empty() {
-                        let extra = rng.gen_range(0..=3usize.min(recent.len()));
-                        for _ in 0..extra {
-                            let cand = recent[rng.gen_range(0..recent.len())];
-                            let at = rng.gen_range(0..=qs.len());
-                            qs.insert(at, cand);
+                    if flavour == 1 {
+                        if let Some(a) = st["qs"].as_array() {
+                            qs = a.iter().map(|x| x.as_i64().unwrap_or(0)).collect();
                         }
                     }
                     let qvs: Vec<Vec<f32>> = qs.iter().map(|x| geo.vec32(*x)).collect();
@@ -304,16 +305,18 @@ fn main() -> anyhow::Result<()> {
                                     .collect();
                                 outw.emit(&json!({"ev": "search", "s": scope, "q": q, "k": k, "res": resj, "must": must, "sorted": sorted,
                                     "degraded": degraded, "path": path_name(path), "cacheable": cacheable, "flavour": fl, "qclen": qc.len(),
-                                    "batch": qs.len(), "pos": pos}));
+                                    "batch": qs.len(), "pos": pos,
+                                    "mh": st["hits"].as_array().and_then(|a| a.get(pos)).and_then(|x| x.as_bool()).map(|b| if b { 1 } else { 0 }).unwrap_or(2)}));
                             }
                             Err(e) => outw.emit(&json!({"ev": "search_error", "s": scope, "q": q, "k": k, "flavour": fl, "why": e.to_string()})),
                         }
                     }
-                    if !recent.contains(&q) {
-                        recent.push(q);
-                    }
                 }
                 other => outw.emit(&json!({"ev": "unknown", "t": other})),
+            }
+            // code -> spec (QcTrace.tla): the model's query-cache size after this step next to the real one
+            if let Some(qm) = st.get("qn").and_then(|x| x.as_u64()) {
+                outw.emit(&json!({"ev": "qstate", "t": t, "qm": qm, "qr": qc.len()}));
             }
         }
     }
